@@ -36,6 +36,8 @@ type Exec struct {
 	axioms    []*Term           // facts about declared symbols (string literals, globals)
 	heapElem  map[string]types.Type
 	mapValType map[string]*types.Map
+	globalOrder []*Term // global pointers in creation order (deterministic scripts)
+	callBindings []Value // captured variables of the closure being called (contractCall)
 	counter   int
 	obls      []*Obligation
 	labelSeen map[string]int
@@ -339,6 +341,10 @@ func (x *Exec) store(st *State, p Value, v Value, pos token.Pos) {
 		}
 		st.cells[p.Cell] = TV{x.pathSet(cv.T, p.Path, tv.T), cv.Ty}
 	case HeapPtr:
+		if _, isFn := v.(FuncV); isFn {
+			// a closure stored in memory is an opaque function value
+			v = TV{x.fresh("closure", SOpq), p.Ty}
+		}
 		tv, ok := v.(TV)
 		if !ok {
 			unsup("store of %T into heap", v)
@@ -351,6 +357,9 @@ func (x *Exec) store(st *State, p Value, v Value, pos token.Pos) {
 		pt, ok := p.Ty.Underlying().(*types.Pointer)
 		if !ok {
 			unsup("store through non-pointer %s", p.Ty)
+		}
+		if _, isFn := v.(FuncV); isFn {
+			v = TV{x.fresh("closure", SOpq), pt.Elem()}
 		}
 		tv, ok := v.(TV)
 		if !ok {
@@ -505,11 +514,12 @@ func (x *Exec) globalPtr(g *ssa.Global) *Term {
 	x.declare(name, SInt)
 	ref := Atom(name, SInt)
 	x.axioms = append(x.axioms, Lt(IntLit(0), ref), Le(ref, Atom("alloc0", SInt)))
-	for _, o := range x.globals {
+	for _, o := range x.globalOrder {
 		x.axioms = append(x.axioms, Not(Eq(Sel("p-ref", o), ref)))
 	}
 	p := MkPtr(ref, IntLit(0))
 	x.globals[g] = p
+	x.globalOrder = append(x.globalOrder, p)
 	return p
 }
 
